@@ -40,10 +40,10 @@ def run(tier):
                  hard_timeout=int(pct * 1.5))
   from vf import bmc_cache
   bm = bmc_cache.run(R, tier)
-  n_hist = 28 * 28 + 28 * 28 * 28 + (8 * 28 ** 3 if tier != 'quick' else 0)
+  n_hist = 28 * 28 + 28 * 28 * 28 + (8 * 16 ** 3 if tier != 'quick' else 0)
   cov = {
       'history_harnesses': len(names),
-      'history_bound': 'H<=%d requests over 7 callables (5 functions, 2 bound methods handed over as temporary objects) x 4 option sets (every history enumerated by the solver)' % H,
+      'history_bound': 'H<=%d requests over 7 callables (5 functions, 2 bound methods handed over as temporary objects) x 4 option sets (every history enumerated by the solver; histories of 4 requests: first request from a sub-pool of 4 callables x 2 option sets, the other three over that sub-pool x 4 option sets)' % H,
       'histories': n_hist,
       'converted_call_histories': '3 requests over 3 functions sharing code (one marked as artifact) x 2 option sets x 3 context statuses '
                                   '(18 harnesses x 324 continuations), real api._TRANSPILER and conversion._ALLOWLIST_CACHE',
